@@ -52,6 +52,32 @@ C16_CALLS = {
 }
 
 
+# results made of several references: each part kept on its own must be tied as well
+# (type, method) -> [(tag, call expression producing `r`, use expression)]
+C16_PARTS = {
+    ("HashMap", "get_key_value"): [("key", "map.get_key_value(&1, &guard).map(|(k, _)| k)", "r.is_some()"),
+                                   ("value", "map.get_key_value(&1, &guard).map(|(_, v)| v)", "r.is_some()")],
+    ("HashMap", "remove_entry"): [("key", "map.remove_entry(&1, &guard).map(|(k, _)| k)", "r.is_some()"),
+                                  ("value", "map.remove_entry(&1, &guard).map(|(_, v)| v)", "r.is_some()")],
+    ("HashMap", "iter"): [("key", "map.iter(&guard).next().map(|(k, _)| k)", "r.is_some()"),
+                          ("value", "map.iter(&guard).next().map(|(_, v)| v)", "r.is_some()")],
+    ("HashMap", "keys"): [("item", "map.keys(&guard).next()", "r.is_some()")],
+    ("HashMap", "values"): [("item", "map.values(&guard).next()", "r.is_some()")],
+    ("HashMap", "try_insert"): [("ok", "map.try_insert(1, String::new(), &guard).ok()", "r.is_some()"),
+                                ("current", "map.try_insert(1, String::new(), &guard).err().map(|e| e.current)", "r.is_some()")],
+    ("HashSet", "iter"): [("item", "set.iter(&sguard).next()", "r.is_some()")],
+    ("HashMapRef", "get_key_value"): [("key", "mref.get_key_value(&1).map(|(k, _)| k)", "r.is_some()"),
+                                      ("value", "mref.get_key_value(&1).map(|(_, v)| v)", "r.is_some()")],
+    ("HashMapRef", "remove_entry"): [("key", "mref.remove_entry(&1).map(|(k, _)| k)", "r.is_some()"),
+                                     ("value", "mref.remove_entry(&1).map(|(_, v)| v)", "r.is_some()")],
+    ("HashMapRef", "iter"): [("key", "mref.iter().next().map(|(k, _)| k)", "r.is_some()"),
+                             ("value", "mref.iter().next().map(|(_, v)| v)", "r.is_some()")],
+    ("HashMapRef", "try_insert"): [("ok", "mref.try_insert(1, String::new()).ok()", "r.is_some()"),
+                                   ("current", "mref.try_insert(1, String::new()).err().map(|e| e.current)", "r.is_some()")],
+    ("HashSetRef", "iter"): [("item", "sref.iter().next()", "r.is_some()")],
+}
+
+
 def c16_programs(rows):
     """rows: list of (ty, name) of borrow-returning public methods (from gen.json)."""
     progs, missing = [], []
@@ -72,6 +98,9 @@ def c16_programs(rows):
         for vname, viol, ok in variants:
             body = PRELUDE_MAP + f"    {setup}\n    let mut r = {call};\n    {viol}\n    let _ = {use};\n}}\n"
             progs.append((f"{ty}_{name}_{vname}", body, ok, "borrow"))
+            for ptag, pcall, puse in C16_PARTS.get(key, []):
+                body = PRELUDE_MAP + f"    {setup}\n    let mut r = {pcall};\n    {viol}\n    let _ = {puse};\n}}\n"
+                progs.append((f"{ty}_{name}_{ptag}_{vname}", body, ok, "borrow"))
     # positive controls: keys, values and lookup keys need not be 'static
     progs.append(("non_static_kv", """use flurry::*;
 fn main() {
